@@ -185,9 +185,7 @@ theorem sem_producer_raise (keep : Bool) (pre : List Step) (s : Step) (rest : Li
   induction pre with
   | nil =>
     refine ⟨Sem.failLogs keep s, by simp [Sem.producer, hs], ?_⟩
-    cases keep
-    · simp [Sem.failLogs, Quiet, restOf]
-    · simpa [Sem.failLogs] using quiet_lg _
+    simpa [Sem.failLogs] using quiet_lg s.logs
   | cons p r ih =>
     obtain ⟨b, hb⟩ := hpre p (by simp)
     obtain ⟨bef, h1, h2⟩ := ih (fun x hx => hpre x (by simp [hx]))
@@ -200,9 +198,7 @@ theorem sem_exchange_raise (keep : Bool) (pre : List Step) (s : Step) (rest : Li
   induction pre with
   | nil =>
     refine ⟨Sem.failLogs keep s, by simp [Sem.exchange, hs], ?_⟩
-    cases keep
-    · simp [Sem.failLogs, Quiet, restOf]
-    · simpa [Sem.failLogs] using quiet_lg _
+    simpa [Sem.failLogs] using quiet_lg s.logs
   | cons p r ih =>
     obtain ⟨b, hb⟩ := hpre p (by simp)
     obtain ⟨bef, h1, h2⟩ := ih (fun x hx => hpre x (by simp [hx]))
